@@ -121,6 +121,12 @@ def gen_model(rnd, cols):
                 p["FalseThreshold"] = rnd.choice([-6, 1, 12])
             if rnd.random() < 0.5:
                 p["Direction"] = rnd.choice(["LowToHigh", "HighToLow"])
+            if rnd.random() < 0.35:
+                # only one of the two thresholds given: the other one is derived from the data, according to Direction
+                p.pop(rnd.choice(["TrueThreshold", "FalseThreshold"]), None)
+                if "TrueThreshold" not in p and "FalseThreshold" not in p:
+                    p[rnd.choice(["TrueThreshold", "FalseThreshold"])] = rnd.choice([13, -7, 20])
+                p["Direction"] = rnd.choice(["LowToHigh", "HighToLow", "HighToLow"])
             # defaults come from data min/max: discontinuous in nothing, fine on inexact inputs
             nd = Node(fresh("f"), op, [rnd.choice(raw)], p, True, False)
         elif op == "CvtFromFuzzy":
